@@ -3,6 +3,7 @@ package main
 import (
 	"fmt"
 	"go/ast"
+	"go/constant"
 	"go/token"
 	"go/types"
 	"regexp"
@@ -39,7 +40,18 @@ import (
 //   * the fork is partially evaluated for strict mode: every lax-derived
 //     operand (the objects found by C10.R1's propagation analysis) is the
 //     constant false, `if false` branches are dropped;
-//   * of an error literal only the message is kept (the fork adds the field name).
+//   * of an error literal only the message is kept (the fork adds the field name);
+//   * decisions are walked in one shape (see "decision normal form" below): a
+//     tagless switch is the if / else-if chain of its clauses, `if a { if b {…} }`
+//     is `if a && b {…}`, `if a || b {leave}` is `if a {leave}; if b {leave}`, and
+//     the chain of a site is flattened to its conjuncts (`a && b` is a ; b,
+//     `!(a || b)` is !(a) ; !(b), `!!a` is a);
+//   * struct literals are rendered `field: value` in field order from the type
+//     information, positional or keyed alike, zero-valued fields omitted;
+//   * a value that cannot be negative (len, cap, reflect's Len / Num…, unsigned)
+//     compared with 0 / 1 is `!= 0` or `== 0` (`n > 0`, `n >= 1`, `0 < n` …);
+//   * single-definition locals are replaced by their defining expression, so a
+//     temporary, an if-initialiser or a hoisted literal do not show.
 //
 // Besides the sites, two whole-function multisets are extracted in the same
 // normal form (with comparison orientation canonicalised: a >= b is b <= a,
@@ -382,6 +394,15 @@ func (c *fdCtx) expr(e ast.Expr) string {
 			}
 		}
 		op := e.Op
+		// a value that cannot be negative compared with 0 / 1: `n > 0`, `n >= 1`,
+		// `n != 0` are one condition, so are `n == 0`, `n <= 0`, `n < 1`
+		if nop, swap, ok := c.lenCompare(e); ok {
+			op = nop
+			if swap {
+				x, y = y, x
+			}
+			y = "0"
+		}
 		if c.canon {
 			switch op {
 			case token.GTR:
@@ -420,9 +441,14 @@ func (c *fdCtx) expr(e ast.Expr) string {
 		}
 		return c.expr(e.X) + ".(" + c.typeExpr(e.Type) + ")"
 	case *ast.CompositeLit:
+		fields, isStruct := c.structLit(e)
 		if e.Type != nil && c.s.inPkgErrorType(e) { // of an error literal only the message is kept
 			msg := ""
-			if len(e.Elts) > 0 {
+			if isStruct {
+				if len(fields) > 0 && fields[0].index == 0 {
+					msg = c.expr(fields[0].value)
+				}
+			} else if len(e.Elts) > 0 {
 				m := e.Elts[0]
 				if kv, ok := m.(*ast.KeyValueExpr); ok {
 					m = kv.Value
@@ -431,16 +457,20 @@ func (c *fdCtx) expr(e ast.Expr) string {
 			}
 			return c.typeExpr(e.Type) + "{" + msg + "}"
 		}
-		var elts []ast.Expr
-		for _, el := range e.Elts { // keyed elements of extra fields are not part of the strict residual
-			if kv, ok := el.(*ast.KeyValueExpr); ok {
-				if id, ok := kv.Key.(*ast.Ident); ok && c.s.extraFields[c.obj(id)] {
+		if isStruct {
+			// positional and keyed struct literals alike: `name: value` in field
+			// order, without the fields left at (or set to) their zero value and
+			// without the fields the other side does not have
+			var out []string
+			for _, f := range fields {
+				if c.s.extraFields[f.field] || c.isZeroConst(f.value) {
 					continue
 				}
+				out = append(out, f.field.Name()+": "+c.expr(f.value))
 			}
-			elts = append(elts, el)
+			return c.typeExpr(e.Type) + "{" + strings.Join(out, ", ") + "}"
 		}
-		return c.typeExpr(e.Type) + "{" + c.exprs(elts) + "}"
+		return c.typeExpr(e.Type) + "{" + c.exprs(e.Elts) + "}"
 	case *ast.KeyValueExpr:
 		k := c.expr(e.Key)
 		if id, ok := e.Key.(*ast.Ident); ok {
@@ -451,6 +481,163 @@ func (c *fdCtx) expr(e ast.Expr) string {
 		return "func{…}"
 	}
 	return c.typeExpr(e)
+}
+
+type fdLitField struct {
+	index int
+	field *types.Var
+	value ast.Expr
+}
+
+// structLit resolves the elements of a struct literal to its fields (by type
+// information), in field order.
+func (c *fdCtx) structLit(e *ast.CompositeLit) ([]fdLitField, bool) {
+	tv, ok := c.s.pkg.TypesInfo.Types[e]
+	if !ok || tv.Type == nil {
+		return nil, false
+	}
+	t := tv.Type
+	if p, ok := t.Underlying().(*types.Pointer); ok { // elided &T in a slice / map literal
+		t = p.Elem()
+	}
+	st, ok := t.Underlying().(*types.Struct)
+	if !ok {
+		return nil, false
+	}
+	var out []fdLitField
+	for i, el := range e.Elts {
+		if kv, ok := el.(*ast.KeyValueExpr); ok {
+			id, ok := kv.Key.(*ast.Ident)
+			if !ok {
+				return nil, false
+			}
+			found := false
+			for j := 0; j < st.NumFields(); j++ {
+				if st.Field(j).Name() == id.Name {
+					out = append(out, fdLitField{j, st.Field(j), kv.Value})
+					found = true
+				}
+			}
+			if !found {
+				return nil, false
+			}
+			continue
+		}
+		if i >= st.NumFields() {
+			return nil, false
+		}
+		out = append(out, fdLitField{i, st.Field(i), el})
+	}
+	sort.SliceStable(out, func(i, j int) bool { return out[i].index < out[j].index })
+	return out, true
+}
+
+// isZeroConst: a constant zero value (0, "", false) or nil.
+func (c *fdCtx) isZeroConst(e ast.Expr) bool {
+	tv, ok := c.s.pkg.TypesInfo.Types[e]
+	if !ok {
+		return false
+	}
+	if tv.IsNil() {
+		return true
+	}
+	if tv.Value == nil {
+		return false
+	}
+	switch tv.Value.Kind() {
+	case constant.Bool:
+		return !constant.BoolVal(tv.Value)
+	case constant.String:
+		return constant.StringVal(tv.Value) == ""
+	case constant.Int, constant.Float, constant.Complex:
+		return constant.Sign(tv.Value) == 0
+	}
+	return false
+}
+
+// nonNeg: the expression is a length or another value that cannot be negative:
+// len / cap, a niladic Len / Cap / Num… method of the standard library
+// (reflect.Value.Len, Type.NumField, bytes.Buffer.Len …), a value of an
+// unsigned type, or a single-definition local defined as one of these.
+func (c *fdCtx) nonNeg(e ast.Expr, depth int) bool {
+	info := c.s.pkg.TypesInfo
+	e = fdUnparen(e)
+	if tv, ok := info.Types[e]; ok && tv.Type != nil {
+		if tv.Value != nil {
+			return false
+		}
+		if b, ok := tv.Type.Underlying().(*types.Basic); ok && b.Info()&types.IsUnsigned != 0 {
+			return true
+		}
+	}
+	switch x := e.(type) {
+	case *ast.Ident:
+		if o := c.obj(x); o != nil && depth < 6 {
+			if def, ok := c.inline[o]; ok {
+				return c.nonNeg(def, depth+1)
+			}
+		}
+	case *ast.CallExpr:
+		switch f := fdUnparen(x.Fun).(type) {
+		case *ast.Ident:
+			if b, ok := c.obj(f).(*types.Builtin); ok && (b.Name() == "len" || b.Name() == "cap") {
+				return true
+			}
+		case *ast.SelectorExpr:
+			fn, ok := c.obj(f.Sel).(*types.Func)
+			if !ok || len(x.Args) != 0 || fn.Pkg() == nil || strings.Contains(fn.Pkg().Path(), ".") {
+				return false // only methods of the standard library are known to keep the convention
+			}
+			sig := fn.Type().(*types.Signature)
+			if sig.Recv() == nil || sig.Results().Len() != 1 {
+				return false
+			}
+			if b, ok := sig.Results().At(0).Type().Underlying().(*types.Basic); !ok || b.Info()&types.IsInteger == 0 {
+				return false
+			}
+			n := fn.Name()
+			return n == "Len" || n == "Cap" || strings.HasPrefix(n, "Num")
+		}
+	}
+	return false
+}
+
+// lenCompare recognises the comparison of a non-negative value with the constant
+// 0 or 1 and returns the canonical operator (!= or ==, against 0) and whether the
+// operands must be swapped so that the value comes first.
+func (c *fdCtx) lenCompare(e *ast.BinaryExpr) (op token.Token, swap, ok bool) {
+	constOf := func(x ast.Expr) (int64, bool) {
+		if tv, ok := c.s.pkg.TypesInfo.Types[x]; ok && tv.Value != nil && tv.Value.Kind() == constant.Int {
+			return constant.Int64Val(tv.Value)
+		}
+		return 0, false
+	}
+	op = e.Op
+	var k int64
+	if v, isC := constOf(e.Y); isC && c.nonNeg(e.X, 0) {
+		k = v
+	} else if v, isC := constOf(e.X); isC && c.nonNeg(e.Y, 0) {
+		k, swap = v, true
+		switch op { // k op n  ->  n op' k
+		case token.LSS:
+			op = token.GTR
+		case token.LEQ:
+			op = token.GEQ
+		case token.GTR:
+			op = token.LSS
+		case token.GEQ:
+			op = token.LEQ
+		}
+	} else {
+		return 0, false, false
+	}
+	switch {
+	case k == 0 && (op == token.GTR || op == token.NEQ), k == 1 && op == token.GEQ:
+		return token.NEQ, swap, true
+	case k == 0 && (op == token.EQL || op == token.LEQ), k == 1 && op == token.LSS:
+		return token.EQL, swap, true
+	}
+	return 0, false, false
 }
 
 func (c *fdCtx) typeExpr(e ast.Expr) string {
@@ -581,7 +768,13 @@ func (w *fdWalker) emit(kind string, head func(c *fdCtx) string, chain []fdCond,
 	c := w.ctx()
 	var parts []string
 	for _, k := range chain {
-		parts = append(parts, c.cond(k))
+		for _, f := range fdFlatten(k) {
+			switch p := c.cond(f); p {
+			case "true", "!(false)":
+			default:
+				parts = append(parts, p)
+			}
+		}
 	}
 	h := head(c)
 	// the chain is a conjunction: its order (the order of independent guards) is immaterial
@@ -688,7 +881,7 @@ func fdTerminates(list []ast.Stmt) bool {
 	if len(list) == 0 {
 		return false
 	}
-	switch s := list[len(list)-1].(type) {
+	switch s := fdNormStmt(list[len(list)-1]).(type) {
 	case *ast.ReturnStmt:
 		return true
 	case *ast.BranchStmt:
@@ -705,11 +898,147 @@ func fdTerminates(list []ast.Stmt) bool {
 		if s.Else == nil {
 			return false
 		}
-		if eb, ok := s.Else.(*ast.BlockStmt); ok {
-			return fdTerminates(s.Body.List) && fdTerminates(eb.List)
-		}
+		return fdTerminates(s.Body.List) && fdTerminates([]ast.Stmt{s.Else})
 	}
 	return false
+}
+
+// ---- decision normal form of statements ---------------------------------------------
+//
+// The same decision can be written in several shapes; the walker sees one:
+//   * a tagless switch (no fallthrough, no break that leaves it) is the if / else-if
+//     chain of its clauses in order, `case a, b:` being `a || b`, the default
+//     clause the final else;
+//   * `if a { if b {Y} }` (nothing else in the outer body, no else on either) is
+//     `if a && b {Y}`;
+//   * `if a || b {X}` where X leaves (return / break / continue / panic) and there
+//     is no else is `if a {X}; if b {X}` (done in stmtN, it yields two statements).
+
+func fdUnparen(e ast.Expr) ast.Expr {
+	for {
+		p, ok := e.(*ast.ParenExpr)
+		if !ok {
+			return e
+		}
+		e = p.X
+	}
+}
+
+// fdLeavesSwitch: the clause body contains a fallthrough or an unlabelled break
+// that would leave the enclosing switch.
+func fdLeavesSwitch(list []ast.Stmt) bool {
+	found := false
+	for _, st := range list {
+		ast.Inspect(st, func(n ast.Node) bool {
+			switch n := n.(type) {
+			case *ast.ForStmt, *ast.RangeStmt, *ast.SwitchStmt, *ast.TypeSwitchStmt, *ast.SelectStmt, *ast.FuncLit:
+				return false
+			case *ast.BranchStmt:
+				if n.Tok == token.FALLTHROUGH || (n.Tok == token.BREAK && n.Label == nil) {
+					found = true
+				}
+			}
+			return !found
+		})
+	}
+	return found
+}
+
+func fdSwitchToIf(s *ast.SwitchStmt) ast.Stmt {
+	if s.Tag != nil {
+		return nil
+	}
+	var clauses []*ast.CaseClause
+	var def *ast.CaseClause
+	for _, cl := range s.Body.List {
+		cc := cl.(*ast.CaseClause)
+		if fdLeavesSwitch(cc.Body) {
+			return nil
+		}
+		if cc.List == nil {
+			def = cc
+		} else {
+			clauses = append(clauses, cc)
+		}
+	}
+	if len(clauses) == 0 {
+		return nil
+	}
+	var tail ast.Stmt
+	if def != nil {
+		tail = &ast.BlockStmt{Lbrace: def.Colon, List: def.Body, Rbrace: def.End()}
+	}
+	for i := len(clauses) - 1; i >= 0; i-- {
+		cc := clauses[i]
+		cond := cc.List[0]
+		for _, e := range cc.List[1:] {
+			cond = &ast.BinaryExpr{X: cond, OpPos: e.Pos(), Op: token.LOR, Y: e}
+		}
+		tail = &ast.IfStmt{If: cc.Case, Cond: cond, Body: &ast.BlockStmt{Lbrace: cc.Colon, List: cc.Body, Rbrace: cc.End()}, Else: tail}
+	}
+	first := tail.(*ast.IfStmt)
+	first.Init = s.Init
+	return first
+}
+
+// fdOrSplits: the if statement is split into one statement per disjunct by stmtN.
+func fdOrSplits(s *ast.IfStmt) bool {
+	or, ok := fdUnparen(s.Cond).(*ast.BinaryExpr)
+	return ok && or.Op == token.LOR && s.Else == nil && fdTerminates(s.Body.List)
+}
+
+func fdNormStmt(st ast.Stmt) ast.Stmt {
+	switch s := st.(type) {
+	case *ast.SwitchStmt:
+		if n := fdSwitchToIf(s); n != nil {
+			return fdNormStmt(n)
+		}
+	case *ast.IfStmt:
+		for s.Else == nil && len(s.Body.List) == 1 {
+			inner, ok := fdNormStmt(s.Body.List[0]).(*ast.IfStmt)
+			if !ok || inner.Init != nil || inner.Else != nil || fdOrSplits(inner) {
+				break
+			}
+			s = &ast.IfStmt{If: s.If, Init: s.Init, Body: inner.Body,
+				Cond: &ast.BinaryExpr{X: s.Cond, OpPos: inner.Cond.Pos(), Op: token.LAND, Y: inner.Cond}}
+		}
+		return s
+	}
+	return st
+}
+
+// fdFlatten splits a chain part into its conjuncts: `a && b` is a ; b,
+// `!(a || b)` is !(a) ; !(b), `!(!a)` is a.
+func fdFlatten(k fdCond) []fdCond {
+	if len(k.exprs) != 1 {
+		return []fdCond{k}
+	}
+	e := fdUnparen(k.exprs[0])
+	switch {
+	case k.pre == "" && k.sep[0] == "":
+		switch x := e.(type) {
+		case *ast.BinaryExpr:
+			if x.Op == token.LAND {
+				return append(fdFlatten(fdCondOf("", x.X, "")), fdFlatten(fdCondOf("", x.Y, ""))...)
+			}
+		case *ast.UnaryExpr:
+			if x.Op == token.NOT {
+				return fdFlatten(fdCondOf("!(", x.X, ")"))
+			}
+		}
+	case k.pre == "!(" && k.sep[0] == ")":
+		switch x := e.(type) {
+		case *ast.BinaryExpr:
+			if x.Op == token.LOR {
+				return append(fdFlatten(fdCondOf("!(", x.X, ")")), fdFlatten(fdCondOf("!(", x.Y, ")"))...)
+			}
+		case *ast.UnaryExpr:
+			if x.Op == token.NOT {
+				return fdFlatten(fdCondOf("", x.X, ""))
+			}
+		}
+	}
+	return []fdCond{k}
 }
 
 func fdWith(chain []fdCond, k ...fdCond) []fdCond {
@@ -718,27 +1047,50 @@ func fdWith(chain []fdCond, k ...fdCond) []fdCond {
 
 func (w *fdWalker) stmts(list []ast.Stmt, chain []fdCond) {
 	for _, st := range list {
-		dead, guard := w.stmt(st, chain)
+		dead, guards := w.stmt(st, chain)
 		if dead {
 			return
 		}
-		if guard != nil {
-			chain = fdWith(chain, *guard)
+		if len(guards) > 0 {
+			chain = fdWith(chain, guards...)
 		}
 	}
 }
 
 // stmt walks one statement.  It returns dead=true when the statements that
 // follow cannot execute (an `if true {…return}` left by partial evaluation)
-// and the guard condition that holds for the following siblings, if any.
-func (w *fdWalker) stmt(st ast.Stmt, chain []fdCond) (dead bool, guard *fdCond) {
+// and the guard conditions that hold for the following siblings, if any.
+func (w *fdWalker) stmt(st ast.Stmt, chain []fdCond) (dead bool, guards []fdCond) {
+	return w.stmtN(fdNormStmt(st), chain)
+}
+
+// stmtN walks a statement that is already in decision normal form.
+func (w *fdWalker) stmtN(st ast.Stmt, chain []fdCond) (dead bool, guards []fdCond) {
 	switch s := st.(type) {
 	case nil:
 	case *ast.BlockStmt:
 		w.stmts(s.List, chain)
 	case *ast.LabeledStmt:
+		if _, isSwitch := s.Stmt.(*ast.SwitchStmt); isSwitch {
+			return w.stmtN(s.Stmt, chain) // a `break L` may leave it: kept as a switch
+		}
 		return w.stmt(s.Stmt, chain)
 	case *ast.IfStmt:
+		// `if a || b {X}` with X leaving is `if a {X}; if b {X}`
+		if fdOrSplits(s) {
+			or := fdUnparen(s.Cond).(*ast.BinaryExpr)
+			first := &ast.IfStmt{If: s.If, Init: s.Init, Cond: or.X, Body: s.Body}
+			second := &ast.IfStmt{If: s.If, Cond: or.Y, Body: s.Body}
+			dead, g1 := w.stmt(first, chain)
+			if dead {
+				return true, nil
+			}
+			dead, g2 := w.stmt(second, fdWith(chain, g1...))
+			if dead {
+				return true, nil
+			}
+			return false, append(append([]fdCond{}, g1...), g2...)
+		}
 		if s.Init != nil {
 			w.stmt(s.Init, chain)
 		}
@@ -768,9 +1120,9 @@ func (w *fdWalker) stmt(st ast.Stmt, chain []fdCond) (dead bool, guard *fdCond) 
 		case tb && te:
 			return true, nil
 		case tb:
-			return false, &neg
+			return false, []fdCond{neg}
 		case te:
-			return false, &pos
+			return false, []fdCond{pos}
 		}
 	case *ast.ForStmt:
 		if s.Init != nil {
@@ -878,6 +1230,7 @@ func (w *fdWalker) stmt(st ast.Stmt, chain []fdCond) (dead bool, guard *fdCond) 
 type fdResult struct {
 	OnlyFork, OnlyUp   []fdSite // unmatched sites
 	FuncsOnlyFork      []string
+	FuncsUnreferenced  []string // fork-only, unexported and not referenced anywhere in the package
 	FuncsOnlyUp        []string
 	SigMismatch        []string
 	Matched, Functions int
@@ -909,6 +1262,11 @@ func ForkDiff(fork, up *packages.Package, files map[string]bool, laxObjs map[typ
 		fo, _ := fork.TypesInfo.Defs[fd.Name].(*types.Func)
 		ud, ok := us.funcs[k]
 		if !ok {
+			if fo != nil && !fdReferenced(fork, fo, fd) {
+				// dead code: an unexported function nobody refers to cannot change what the package does
+				res.FuncsUnreferenced = append(res.FuncsUnreferenced, k)
+				continue
+			}
 			res.FuncsOnlyFork = append(res.FuncsOnlyFork, k)
 			if fo != nil {
 				fs.onlyHere[fo] = true
@@ -1023,6 +1381,47 @@ func ForkDiff(fork, up *packages.Package, files map[string]bool, laxObjs map[typ
 	sort.Strings(res.FuncsOnlyFork)
 	sort.Strings(res.FuncsOnlyUp)
 	return res
+}
+
+// fdReferenced reports whether the function can be reached at all: it is
+// exported, or init / main, or some identifier outside its own body refers to it,
+// or (methods) an interface declared in the package has a method of its name, so
+// that it may be called dynamically.
+func fdReferenced(pk *packages.Package, fn *types.Func, decl *ast.FuncDecl) bool {
+	if fn.Exported() || fn.Name() == "init" || fn.Name() == "main" {
+		return true
+	}
+	for id, o := range pk.TypesInfo.Uses {
+		if o == fn && !(decl.Body != nil && decl.Body.Pos() <= id.Pos() && id.Pos() < decl.Body.End()) {
+			return true
+		}
+	}
+	if sig, ok := fn.Type().(*types.Signature); ok && sig.Recv() != nil {
+		for _, tv := range pk.TypesInfo.Types {
+			if tv.Type == nil {
+				continue
+			}
+			if it, ok := tv.Type.Underlying().(*types.Interface); ok {
+				for i := 0; i < it.NumMethods(); i++ {
+					if it.Method(i).Name() == fn.Name() {
+						return true
+					}
+				}
+			}
+		}
+		for _, name := range pk.Types.Scope().Names() {
+			if tn, ok := pk.Types.Scope().Lookup(name).(*types.TypeName); ok {
+				if it, ok := tn.Type().Underlying().(*types.Interface); ok {
+					for i := 0; i < it.NumMethods(); i++ {
+						if it.Method(i).Name() == fn.Name() {
+							return true
+						}
+					}
+				}
+			}
+		}
+	}
+	return false
 }
 
 // fdTracked: the non-error named results, plus (fixpoint) the non-inlined,
